@@ -36,6 +36,8 @@ func main() {
 		cmdChild(os.Args[2:])
 	case "crash":
 		cmdCrash(os.Args[2:])
+	case "api":
+		cmdAPI(os.Args[2:])
 	default:
 		die(70, "unknown command %s", os.Args[1])
 	}
